@@ -443,4 +443,160 @@ theorem manyImpl_nohang_ge {p : P} (hadv : Adv p) (nd : Node) (acts : Bool) (sle
     | idx => simp
     | hang => exact absurd ht this
 
+/-! ### `parseImpl`, `_parseNoCache` -/
+
+/-- `And`'s test for `_ErrorStop` operands, as `parseImpl` passes it -/
+def stopFn (g : Grammar) : Nat → Bool := fun i =>
+  match g[i]? with
+  | some n => (match n.kind with
+    | .errorStop => true
+    | _ => false)
+  | none => false
+
+/-- what one node needs of the recursive call when it is entered at a location `≥ L` (SkipTo is not covered) -/
+structure NodeOkGe (p : P) (g : Grammar) (nd : Node) (slen L : Nat) : Prop where
+  ign : ∀ e ∈ nd.ignore, NHge p e L ∧ IgnAdv p e
+  kids : (∀ es, nd.kind ≠ .and es) → ∀ c ∈ nd.kind.children, NHge p c L
+  and : ∀ e0 rest, nd.kind = .and (e0 :: rest) →
+    NHge p e0 L ∧ (SAdv p e0 → ∀ l, L ≤ l → l ≤ slen → ∀ y ∈ rest, NHge p y (l + 1)) ∧
+      (¬ SAdv p e0 → AndOk p (stopFn g) slen rest L)
+  many : ∀ x ne one, nd.kind = .many x ne one → ManyAdv p nd slen x
+  ss : nd.kind = .stringStart → nd.ignore = []
+  noSkip : ∀ x i fo ig, nd.kind ≠ .skipTo x i fo ig
+
+theorem NodeOkGe.mono {p : P} {g : Grammar} {nd : Node} {slen L L' : Nat} (h : NodeOkGe p g nd slen L) (hl : L ≤ L') :
+    NodeOkGe p g nd slen L' :=
+  ⟨fun e he => ⟨(h.ign e he).1.mono hl, (h.ign e he).2⟩,
+   fun hk c hc => (h.kids hk c hc).mono hl,
+   fun e0 rest hk => ⟨(h.and e0 rest hk).1.mono hl,
+     fun hs l hLl hls y hy => (h.and e0 rest hk).2.1 hs l (by omega) hls y hy,
+     fun hs => ((h.and e0 rest hk).2.2 hs).mono hl⟩,
+   h.many, h.ss, h.noSkip⟩
+
+theorem parseImpl_nohang_ge {p : P} (g : Grammar) (nd : Node) (s : List Char) (hadv : Adv p) (hb : BndAll s.length p)
+    (loc : Nat) (hn : NodeOkGe p g nd s.length loc) (acts : Bool) : parseImpl g p nd s loc acts ≠ .hang := by
+  have hig := hn.ign
+  have hkids := hn.kids
+  have hand := hn.and
+  have hss := hn.ss
+  have hns := hn.noSkip
+  unfold parseImpl
+  cases hkd : nd.kind <;> simp only [hkd] at hkids hand hss hns ⊢
+  case lit m => exact litImpl_nohang _ _ _
+  case lit1 c => exact lit1Impl_nohang _ _ _
+  case empty => simp
+  case errorStop => simp
+  case noMatch => simp
+  case caselessLit mU ret => exact caselessLitImpl_nohang _ _ _ _
+  case keyword m i c => exact keywordImpl_nohang _ _ _ _ _
+  case word i b mn mx ms kw re =>
+    split
+    · exact wordReImpl_nohang _ _ _ _ _ _ _
+    · exact wordSlowImpl_nohang _ _ _ _ _ _ _ _
+  case charsNotIn n mn mx => exact charsNotInImpl_nohang _ _ _ _ _
+  case stringStart =>
+    split
+    · simp
+    · have hign : nd.ignore = [] := hss trivial
+      have := preParse_nohang_ge (L := 0) nd s hb (by intro e he; rw [hign] at he; simp at he) 0 (Nat.le_refl _)
+      cases hpre : preParse p nd s 0 with
+      | «at» l => simp only; split <;> simp
+      | abort o => simp only; intro ho; subst ho; exact this hpre
+  case stringEnd => exact stringEndImpl_nohang _ _
+  case lineStart w nl => split <;> simp
+  case lineEnd => exact lineEndImpl_nohang _ _
+  case wordStart cs => exact wordStartImpl_nohang _ _ _
+  case wordEnd cs => exact wordEndImpl_nohang _ _ _
+  case and es =>
+    cases es with
+    | nil => simp [andImpl]
+    | cons e0 rest =>
+      have h := hand e0 rest rfl
+      exact andImpl_nohang_ge hadv (stopFn g) acts s.length e0 rest loc hb h.1
+        (fun hs hle y hy => h.2.1 hs loc (Nat.le_refl _) hle y hy) h.2.2
+  case matchFirst es =>
+    exact mfGo_nohang_ge _ _ _ _ (fun e he => hkids (by intro es' h; cases h) e (by simpa [Kind.children] using he)) _
+  case or es =>
+    exact orImpl_nohang_ge _ _ _ _ _ _ hb hig
+      (fun e he => hkids (by intro es' h; cases h) e (by simpa [Kind.children] using he))
+  case opt x d =>
+    have hx : NHge p x loc := hkids (by intro es' h; cases h) x (by simp [Kind.children])
+    cases h0 : p x loc acts false with
+    | ok l ts' => simp
+    | fail c l => cases c <;> simp
+    | idx => simp
+    | hang => exact absurd h0 (hx _ (Nat.le_refl _) _ _)
+  case many x ne one =>
+    have hx : NHge p x loc := hkids (by intro es' h; cases h) x (by simp [Kind.children])
+    have hne : ∀ n, ne = some n → NHge p n loc := by
+      intro n h; subst h; exact hkids (by intro es' h; cases h) n (by simp [Kind.children])
+    have hm := manyImpl_nohang_ge hadv nd acts s.length x ne loc hb hig hx hne (hn.many x ne one hkd)
+    split
+    · exact hm
+    · cases h1 : manyImpl p nd acts s.length x ne loc with
+      | ok l ts' => simp
+      | fail c l => cases c <;> simp
+      | idx => simp
+      | hang => exact absurd h1 hm
+  case notAny x =>
+    have hx : NHge p x loc := hkids (by intro es' h; cases h) x (by simp [Kind.children])
+    have := canParseNext_nohang_ge hx loc (Nat.le_refl _) acts
+    cases hc : canParseNext p x loc acts with
+    | none => exact absurd hc this
+    | some b => cases b <;> simp
+  case followedBy x =>
+    have hx : NHge p x loc := hkids (by intro es' h; cases h) x (by simp [Kind.children])
+    cases h0 : p x loc acts true with
+    | ok l ts' => simp
+    | fail c l => simp
+    | idx => simp
+    | hang => exact absurd h0 (hx _ (Nat.le_refl _) _ _)
+  case located x =>
+    have hx : NHge p x loc := hkids (by intro es' h; cases h) x (by simp [Kind.children])
+    cases h0 : p x loc acts false with
+    | ok l ts' => simp
+    | fail c l => simp
+    | idx => simp
+    | hang => exact absurd h0 (hx _ (Nat.le_refl _) _ _)
+  case group x =>
+    exact enhanceImpl_nohang_ge _ _ _ (by intro e h; simp at h; subst h; exact hkids (by intro es' h; cases h) _ (by simp [Kind.children]))
+  case suppress x =>
+    exact enhanceImpl_nohang_ge _ _ _ (by intro e h; simp at h; subst h; exact hkids (by intro es' h; cases h) _ (by simp [Kind.children]))
+  case combine x j =>
+    exact enhanceImpl_nohang_ge _ _ _ (by intro e h; simp at h; subst h; exact hkids (by intro es' h; cases h) _ (by simp [Kind.children]))
+  case enhance x =>
+    exact enhanceImpl_nohang_ge _ _ _ (by intro e h; simp at h; subst h; exact hkids (by intro es' h; cases h) _ (by simp [Kind.children]))
+  case forward x =>
+    exact enhanceImpl_nohang_ge _ _ _ (by intro e h; subst h; exact hkids (by intro es' h; cases h) _ (by simp [Kind.children]))
+  case skipTo x incl fo ig => exact absurd rfl (hns x incl fo ig)
+
+/-- one level of `_parseNoCache`, entered at `loc` -/
+theorem parseStep_nohang_ge {p : P} (g : Grammar) (s : List Char) (hadv : Adv p) (hb : BndAll s.length p)
+    {id : Nat} {nd : Node} (hg : g[id]? = some nd) (loc : Nat) (hn : NodeOkGe p g nd s.length loc) (a c : Bool) :
+    parseStep g s p id loc a c ≠ .hang := by
+  unfold parseStep
+  rw [hg]
+  simp only
+  have h1 : (if (c && nd.callPre) = true then preParse p nd s loc else PreR.at loc) ≠ .abort .hang ∧
+      ∀ l, (if (c && nd.callPre) = true then preParse p nd s loc else PreR.at loc) = .at l → loc ≤ l := by
+    split
+    · exact ⟨preParse_nohang_ge nd s hb hn.ign loc (Nat.le_refl _), fun l h => preParse_ge p nd s loc l h⟩
+    · exact ⟨by simp, fun l h => by simp at h; omega⟩
+  generalize (if (c && nd.callPre) = true then preParse p nd s loc else PreR.at loc) = pr at h1
+  cases pr with
+  | abort o => simp only; intro ho; subst ho; exact h1.1 rfl
+  | «at» pre =>
+    simp only
+    have hi := parseImpl_nohang_ge g nd s hadv hb pre (hn.mono (h1.2 pre rfl)) a
+    cases h : parseImpl g p nd s pre a with
+    | ok e ts =>
+      simp only
+      split
+      · exact runActs_nohang _ _ _ _
+      · simp
+    | fail c' l => simp
+    | idx =>
+      by_cases hc : (nd.mayIdx || decide (pre ≥ s.length)) = true <;> simp [hc]
+    | hang => exact absurd h hi
+
 end PP.Parse
